@@ -263,11 +263,16 @@ def minimise(scenario, prop, seed, run, tier, choices, klass, root=None, max_exe
 		n_exec += 1
 		r = execute(scenario, prop, seed, run, tier, choices=cand, root=root)
 		if r.violation is not None and r.violation.klass == klass and r.error is None:
-			# keep the *consumed* trace: it is canonical (clamped, right length)
-			best = [list(c) for c in r.choices]
-			best_res = r
-			return True
+			# keep the *consumed* trace: it is canonical (clamped, right length) - but only if it is
+			# really smaller (shorter, or same length with a smaller value sum), which also bounds the search
+			if best_res is None or measure(r.choices) < measure(best):
+				best = [list(c) for c in r.choices]
+				best_res = r
+				return True
 		return False
+
+	def measure(ch):
+		return (len(ch), sum(c[2] for c in ch))
 
 	# canonicalise first
 	attempt(best)
